@@ -158,7 +158,7 @@ BAD = ['(a / alpha :foo (b / beta) :ARG1 b)', '(c / gamma :bar-of-of 1)']
 BAD_TRIPLES = [['(a :foo b)'], ['(c :bar-of-of 1)']]
 
 
-def h_tool(nfiles: int, use_stdin: bool, sep: int, **sym):
+def h_tool(nfiles: int, use_stdin: bool, sep: int, triples: bool, **sym):
     """penman --amr --check: exit status != 0 iff some graph in some input is
     non-compliant; every offending triple is recorded in that graph's
     metadata."""
@@ -182,12 +182,14 @@ def h_tool(nfiles: int, use_stdin: bool, sep: int, **sym):
                     expected_records.append([])
         joiner = progs.pick(sep, ['\n\n', '\n', ' '])
         files[f'in{f}.txt'] = joiner.join(texts) + '\n'
+    base = ['--amr', '--check', '--indent', 'no'] + (
+        ['--triples'] if triples else [])
     if use_stdin:
         assume(nfiles == 1)
-        argv = ['--amr', '--check', '--indent', 'no']
+        argv = base
         code, out, err = cli.run_main(argv, stdin_text=files['in0.txt'])
     else:
-        argv = ['--amr', '--check', '--indent', 'no'] + sorted(files)
+        argv = base + sorted(files)
         code, out, err = cli.run_main(argv, files=files)
     if expect_bad:
         mark('non-compliant')
@@ -195,6 +197,8 @@ def h_tool(nfiles: int, use_stdin: bool, sep: int, **sym):
         mark('compliant')
     require((code != 0) == expect_bad, 'exit status does not report the '
             'check result', files, code)
+    if triples:
+        return   # a triple conjunction shows no metadata; status only
     # per graph: offending triples recorded in the metadata just above it
     lines = out.split('\n')
     graphs = []
@@ -250,13 +254,16 @@ def obligations(tier: str) -> List[dict]:
                 add('h_errors', 'errors', 400, model='amr', n=3, top=top,
                     t0_s=0, t0_r=r0, t0_t=1)
         add('h_decoded', 'decoded graphs', 400, ['role-error'], n=2)
-        add('h_tool', 'tool', 300, ['compliant', 'non-compliant'], nfiles=1,
-            use_stdin=True, sep=0)
-        for sep in range(3):
+        for tr in (False, True):
+            add('h_tool', 'tool', 300, ['compliant', 'non-compliant'],
+                nfiles=1, use_stdin=True, sep=0, triples=tr)
             add('h_tool', 'tool', 400, ['compliant', 'non-compliant'],
-                nfiles=2, use_stdin=False, sep=sep)
+                nfiles=2, use_stdin=False, sep=0, triples=tr)
+        for sep in (1, 2):
+            add('h_tool', 'tool', 400, ['compliant', 'non-compliant'],
+                nfiles=2, use_stdin=False, sep=sep, triples=False)
         add('h_tool', 'tool', 400, nfiles=3, use_stdin=False, sep=0, f0_n=1,
-            f1_n=1)
+            f1_n=1, triples=False)
     else:
         for m in ('default', 'amr', 'custom'):
             for top in range(len(TOPS)):
@@ -266,8 +273,11 @@ def obligations(tier: str) -> List[dict]:
         for op in (0, 1):
             add('h_decoded', 'decoded graphs', 3000, n=3, i0_op=op)
         for sep in range(3):
-            add('h_tool', 'tool', 3000, nfiles=3, use_stdin=False, sep=sep)
-            add('h_tool', 'tool', 600, nfiles=1, use_stdin=True, sep=sep)
+            for tr in (False, True):
+                add('h_tool', 'tool', 3000, nfiles=3, use_stdin=False,
+                    sep=sep, triples=tr)
+                add('h_tool', 'tool', 600, nfiles=1, use_stdin=True,
+                    sep=sep, triples=tr)
     return obs
 
 
